@@ -122,40 +122,57 @@ func (s *Server) servePacket(pc net.PacketConn) error {
 	// closeCh is used to receive notifications of socket closures from
 	// packetConn, which allows us to remove stale connections (whose
 	// proxy handlers have completed) from the udpConns map.
-	closeCh := make(chan string, 10)
+	closeCh := make(chan *packetConn, 10)
 	for {
 		select {
-		case addr := <-closeCh:
+		case closed := <-closeCh:
 			// UDP connection is closed (either implicitly through timeout or by
-			// explicit call to Close()).
-			delete(udpConns, addr)
+			// explicit call to Close()). A newer connection for the same
+			// downstream may have been registered in the meantime; keep that one.
+			if addr := closed.addr.String(); udpConns[addr] == closed {
+				delete(udpConns, addr)
+			}
 
 		case pkt := <-packets:
 			if pkt.err != nil {
 				return pkt.err
 			}
-			conn, ok := udpConns[pkt.addr.String()]
-			if !ok {
-				// No existing proxy handler is running for this downstream.
-				// Create one now.
-				conn = &packetConn{
-					PacketConn: pc,
-					readCh:     make(chan *packet, 5),
-					addr:       pkt.addr,
-					closeCh:    closeCh,
+			addr := pkt.addr.String()
+			conn, ok := udpConns[addr]
+			for delivered := false; !delivered; {
+				if ok && conn.isClosed() {
+					// the handler of this connection has already shut down
+					ok = false
 				}
-				udpConns[pkt.addr.String()] = conn
-				go func(conn *packetConn) {
-					s.handle(conn)
-					// It might seem cleaner to send to closeCh here rather than
-					// in packetConn, but doing it earlier in packetConn closes
-					// the gap between the proxy handler shutting down and new
-					// packets coming in from the same downstream.  Should that
-					// happen, we'll just spin up a new handler concurrent to
-					// the old one shutting down.
-				}(conn)
+				if !ok {
+					// No existing proxy handler is running for this downstream.
+					// Create one now.
+					conn = &packetConn{
+						PacketConn: pc,
+						readCh:     make(chan *packet, 5),
+						done:       make(chan struct{}),
+						addr:       pkt.addr,
+						closeCh:    closeCh,
+					}
+					udpConns[addr] = conn
+					go func(conn *packetConn) {
+						s.handle(conn)
+						// It might seem cleaner to send to closeCh here rather than
+						// in packetConn, but doing it earlier in packetConn closes
+						// the gap between the proxy handler shutting down and new
+						// packets coming in from the same downstream.  Should that
+						// happen, we'll just spin up a new handler concurrent to
+						// the old one shutting down.
+					}(conn)
+					ok = true
+				}
+				select {
+				case conn.readCh <- &pkt:
+					delivered = true
+				case <-conn.done:
+					// closed while we were waiting; hand the packet to a new connection
+				}
 			}
-			conn.readCh <- &pkt
 		}
 	}
 }
@@ -235,7 +252,11 @@ type packetConn struct {
 	net.PacketConn
 	addr    net.Addr
 	readCh  chan *packet
-	closeCh chan string
+	closeCh chan *packetConn
+	// closed by Close(); readCh itself is never closed because the server
+	// loop may be about to send on it
+	done      chan struct{}
+	closeOnce sync.Once
 	// If not nil, then the previous Read() call didn't consume all the data
 	// from the buffer, and this packet will be reused in the next Read()
 	// without waiting for readCh.
@@ -291,12 +312,10 @@ func (pc *packetConn) Read(b []byte) (n int, err error) {
 	var done bool
 	for !done {
 		select {
+		case <-pc.done:
+			// Connection is closed. Return EOF below.
+			return 0, io.EOF
 		case pkt := <-pc.readCh:
-			if pkt == nil {
-				// Channel is closed. Return EOF below.
-				done = true
-				break
-			}
 			buf := bytes.NewReader(pkt.pooledBuf[:pkt.n])
 			n, err = buf.Read(b)
 			if buf.Len() == 0 {
@@ -325,7 +344,7 @@ func (pc *packetConn) Read(b []byte) (n int, err error) {
 	// Although Close() also does this, we inform the server loop early about
 	// the closure to ensure that if any new packets are received from this
 	// connection in the meantime, a new handler will be started.
-	pc.closeCh <- pc.addr.String()
+	pc.closeCh <- pc
 	// Returning EOF here ensures that io.Copy() waiting on the downstream for
 	// reads will terminate.
 	return 0, io.EOF
@@ -336,22 +355,39 @@ func (pc *packetConn) Write(b []byte) (n int, err error) {
 }
 
 func (pc *packetConn) Close() error {
-	if pc.lastPacket != nil {
-		udpBufPool.Put(pc.lastPacket.pooledBuf)
-		pc.lastPacket = nil
-	}
-	// This will abort any active Read() from another goroutine and return EOF
-	close(pc.readCh)
-	// Drain pending packets to ensure we release buffers back to the pool
-	for pkt := range pc.readCh {
-		udpBufPool.Put(pkt.pooledBuf)
-	}
-	// We may have already done this earlier in Read(), but just in case
-	// Read() wasn't being called, (re-)notify server loop we're closed.
-	pc.closeCh <- pc.addr.String()
+	pc.closeOnce.Do(func() {
+		if pc.lastPacket != nil {
+			udpBufPool.Put(pc.lastPacket.pooledBuf)
+			pc.lastPacket = nil
+		}
+		// This will abort any active Read() from another goroutine and return EOF,
+		// and tells the server loop not to queue any more packets here
+		close(pc.done)
+		// Drain pending packets to ensure we release buffers back to the pool
+		for drained := false; !drained; {
+			select {
+			case pkt := <-pc.readCh:
+				udpBufPool.Put(pkt.pooledBuf)
+			default:
+				drained = true
+			}
+		}
+		// We may have already done this earlier in Read(), but just in case
+		// Read() wasn't being called, (re-)notify server loop we're closed.
+		pc.closeCh <- pc
+	})
 	// We don't call net.PacketConn.Close() here as we would stop the UDP
 	// server.
 	return nil
+}
+
+func (pc *packetConn) isClosed() bool {
+	select {
+	case <-pc.done:
+		return true
+	default:
+		return false
+	}
 }
 
 func (pc *packetConn) RemoteAddr() net.Addr { return pc.addr }
